@@ -32,7 +32,7 @@ ASSUMPTIONS = ["digests use public attributes and printed text only",
 
 
 def _leaf_values(a):
-    """Stored values of the function objects hanging in the schema's numeric expressions."""
+    """Stored values of the function objects and of the constants hanging in the schema's numeric expressions."""
     from pddl_plus_parser.models import NumericalExpressionTree, PDDLFunction, Precondition
     out = []
 
@@ -40,6 +40,8 @@ def _leaf_values(a):
         for node in t:
             if node.is_leaf and isinstance(node.value, PDDLFunction):
                 out.append((node.value.name, repr(node.value.value)))
+            elif node.is_leaf and isinstance(node.value, (int, float)):
+                out.append(("constant", repr(float(node.value))))      # as stored, not as printed
 
     def cond(c):
         for o in c.operands:
@@ -58,9 +60,9 @@ def _leaf_values(a):
 
 
 def digest_action(a):
+    okv, vals = lib_call(_leaf_values, a)      # before anything is printed
     ok, xa = lib_call(extract.x_action, a)
     sig = [[k, v.name] for k, v in a.signature.items()]
-    okv, vals = lib_call(_leaf_values, a)
     return json.dumps([sig, xa if ok else repr(xa), vals if okv else repr(vals)], sort_keys=True, default=str)
 
 
@@ -590,7 +592,7 @@ def gen_spec(ch, ft):
 
 
 def gen(ch, tier):
-    ft = G.feats(max_actions=2, max_leaves=1, p_when=0.4, p_forall_eff=0.6, nested=False, forall_pre=False)
+    ft = G.feats(max_actions=2, max_leaves=1, p_when=0.4, p_forall_eff=0.6, nested=False, forall_pre=False, p_long_number=0.15, long_decimals=6)
     specs = [gen_spec(ch, dict(ft, typed=True))]
     if ch.flag(0.5):
         specs.append(gen_spec(ch, dict(ft, typed=not ch.flag(0.5))))
